@@ -311,6 +311,28 @@ def ec_tables():
     return out
 
 
+# ------------------------------------------------------------------ family EN: different ports, same generated name
+def en_tables():
+    """two different resources whose I/O ports get the same generated name (<resource>_<number>__<subsignal>...):
+    a differential pair (width 1 and 2), a multi-bit port behind nested subsignals, a single-bit clock input with
+    attributes, and a table holding two such collisions at once"""
+    def pins(names, d, **kw):
+        return {"kind": "pins", "names": names, "conn": None, "dir": d, "invert": kw.get("inv", False),
+                "clock_mhz": kw.get("clock"), "attrs": kw.get("attrs")}
+    def diff(p, n, d):
+        return {"kind": "diff", "p": p, "n": n, "conn": None, "dir": d, "invert": False, "clock_mhz": None, "attrs": None}
+    def res(name, node):
+        return {"name": name, "number": 0, "node": node}
+    t1 = [res("bus", group([("d_0", diff(["B0"], ["B1"], "i"))])), res("bus_0__d", diff(["B2"], ["B3"], "i"))]
+    t1w = [res("bus", group([("d_0", diff(["B0", "B4"], ["B1", "B5"], "o"))])), res("bus_0__d", diff(["B2", "B6"], ["B3", "B7"], "o"))]
+    t2 = [res("p", group([("q", group([("r_0", pins(["C0", "C1"], "o", inv=True))]))])), res("p_0__q__r", pins(["C2", "C3"], "o"))]
+    t3 = [res("a", group([("b_0", pins(["D0"], "i", clock=12.5, attrs={"IO_TYPE": "LVCMOS18"}))])),
+          res("a_0__b", pins(["D1"], "i", clock=33.333, attrs={"IO_TYPE": "LVCMOS33", "DRIVE": "4"}))]
+    t3n = [res("a", group([("b_0", pins(["D0"], "i", attrs={"IO_TYPE": "LVCMOS18"}))])),
+           res("a_0__b", pins(["D1"], "i", attrs={"IO_TYPE": "LVCMOS33", "DRIVE": "4"}))]
+    return [table_of(t, False) for t in (t1, t1w, t2, t3n, t3, t1 + t2)]
+
+
 # ------------------------------------------------------------------ family X: dangling connector references
 def x_tables():
     out = []
